@@ -129,7 +129,7 @@ package pullapi
 //@   trusted
 //@   modifies dequeueRequest.*, leaseRequest.*, respStatus, maps(http.Header)
 //@ func parseDuration
-//@   trusted
+//@   ensures [C05:an_absent_delay_is_zero_and_a_malformed_one_is_refused] (s == "" ==> result1 && result0 == 0) && (s != "" && result1 ==> ext2("time.ParseDuration", "$1", s) == nil && result0 == ext2("time.ParseDuration", "$0", s))
 
 // ---- C04 (pull layer, batches): the idempotency cache learns only leases the store settled ----
 
@@ -198,8 +198,9 @@ package pullapi
 //@   ensures [C04:a_batch_names_exactly_the_distinct_non_empty_lease_ids_sent] result2 == "" && result1 ==> len(result0) >= 1 && (forall j int :: 0 <= j && j < len(result0) ==> result0[j] != "" && exists i int :: 0 <= i && i < len(req.LeaseIDs) && trim(req.LeaseIDs[i]) == result0[j]) && (forall j int, k int :: 0 <= j && j < k && k < len(result0) ==> result0[j] != result0[k]) && (forall i int :: 0 <= i && i < len(req.LeaseIDs) && trim(req.LeaseIDs[i]) != "" ==> exists j int :: 0 <= j && j < len(result0) && result0[j] == trim(req.LeaseIDs[i]))
 //@   ensures [C04:an_oversized_batch_is_refused] result2 == "" && result1 && maxBatch > 0 ==> len(result0) <= maxBatch
 //@ func mapLeaseBatchConflicts
-//@   trusted
+//@   loop 1 invariant [copied_so_far] rangeindex < len(conflicts) && len(out) == rangeindex + 1 && forall j int :: 0 <= j && j < len(out) ==> out[j].LeaseID == conflicts[j].LeaseID && out[j].Reason == ite(conflicts[j].Expired, "lease_expired", "lease_not_found")
 //@   ensures len(result) == len(conflicts)
+//@   ensures [C04:every_conflict_is_reported_under_its_lease_id_with_its_reason] forall j int :: 0 <= j && j < len(conflicts) ==> result[j].LeaseID == conflicts[j].LeaseID && result[j].Reason == ite(conflicts[j].Expired, "lease_expired", "lease_not_found")
 
 //@ func (*Server).handleAck
 //@   requires s != nil && r != nil && w != nil
